@@ -25,7 +25,7 @@ ASSUMPTIONS = ["node functions are total on the generated inputs",
                "evaluation counts are observed for Calc and Dist nodes (counters inside the supplied "
                "functions / distribution constructors); the three _model_* sum nodes are judged by value and flag only"]
 WORKERS = 16
-TIMEOUT = {"quick": 900, "thorough": 3600}
+TIMEOUT = {"quick": 1500, "thorough": 10800}
 
 
 def make_program(seed, idx, big=False):
